@@ -53,6 +53,9 @@ type Ctx struct {
 	Explain  string
 	CallSite int
 	Paths    int
+
+	borrow     map[string]string // see Borrow
+	borrowFrom string
 }
 
 func NewCtx(p *Prog, prop, tier string) *Ctx {
@@ -62,6 +65,14 @@ func NewCtx(p *Prog, prop, tier string) *Ctx {
 // Rule starts a rule; floor is the minimum number of instances that must be
 // found (role floor), 0 for zero-count rules.
 func (c *Ctx) Rule(id, text string, floor int) bool {
+	if c.borrow != nil {
+		nid, ok := c.borrow[id]
+		if !ok {
+			return false
+		}
+		text = "(obligations of " + c.borrowFrom + "/" + id + ", a necessary condition of this property too) " + text
+		id = nid
+	}
 	full := c.Prop + "/" + id
 	c.curRule = full
 	c.Rules = append(c.Rules, RuleDoc{ID: full, Text: text, Floor: floor})
@@ -305,4 +316,17 @@ func (c *Ctx) Finish(verifDir string, kf *KnownFile, start time.Time, seed int) 
 		fmt.Fprintf(os.Stderr, "cannot write evidence: %v\n", err)
 	}
 	return res
+}
+
+// Borrow runs another property's rule function under this property: only the
+// rules named in ids are evaluated, each under the given id of this property.
+// Used where a structural fact is a necessary condition of both properties;
+// the obligations are evaluated again, under this property's rule id, so that
+// each property's check stands alone.
+func (c *Ctx) Borrow(from string, ids map[string]string, run func(*Ctx)) {
+	saved := c.Explain
+	c.borrow, c.borrowFrom = ids, from
+	run(c)
+	c.borrow, c.borrowFrom = nil, ""
+	c.Explain = saved
 }
